@@ -19,11 +19,11 @@ from fsmc.explorer import ProductSystem, ListSystem
 PID = "C12"
 RULE = ("states = displacement fields on a lattice of 9 values per junction (4 junctions), and series configurations within the deviation bound; "
         "non-trivial = some junction moves; classes = (field signature | motion, level, length, renumbering, cm, guess)")
-BOUND = {"quick": "all 9^4 lattice fields (4 mutually neighbouring junctions x rest / 8 directions) at 0.95 and 0.4 of the binding displacement bound on a compact base and at 0.95 on a 20-cell base, each under 4 combinations of (numbering, storage order) of the two frames; on a hexagonal lattice 9.5 spacings wide all 13 x 5^3 bond-aligned fields (central junction along its bonds, neighbours towards / away from it, two magnitudes) under the same 4 combinations; series product (motion, level, length, numbering, cm, guess, length unit) with deviation bound 2",
+BOUND = {"quick": "all 9^4 lattice fields (4 mutually neighbouring junctions x rest / 8 directions) at 0.95 and 0.4 of the binding displacement bound on a compact base and at 0.95 on a 20-cell base, each under 4 combinations of (numbering, storage order) of the two frames; on a hexagonal lattice 9.5 spacings wide all 13 x 5^3 bond-aligned fields (central junction along its bonds, neighbours towards / away from it, two magnitudes) under the same 4 combinations; series product (motion, level, length, numbering, cm, guess, length unit) with deviation bound 2; wherever the round trip is judged, get_vertex_position (the trajectory query, over all frames and with an explicit last frame) must visit the true successor in every frame",
          "thorough": "compact base under 9 numbering combinations, 20-cell base under 4; bond-aligned fields with 5 magnitudes (31 x 11^3) on one hexagonal lattice and 2 magnitudes on two more (one curved); series product with deviation bound 3"}
 ASSUMPTIONS = ["bounds of the statement are evaluated on the generated geometry: displacement < 0.5 x smallest junction spacing (both frames), < 8% of the extent "
                "of the interface end points of both frames, bounding-box shape change < 10% of that extent; instances outside give no verdict"]
-REQUIRED_TAGS = {"all": ["inside_bounds", "outside_bounds", "renumbered", "cm", "guess_true", "guess_wrong", "len>2", "roundtrip_checked", "binding:spacing", "binding:extent", "large_length_unit", "small_length_unit", "guess_shared_empty"]}
+REQUIRED_TAGS = {"all": ["inside_bounds", "outside_bounds", "renumbered", "cm", "guess_true", "guess_wrong", "len>2", "roundtrip_checked", "binding:spacing", "binding:extent", "large_length_unit", "small_length_unit", "guess_shared_empty", "trajectory_checked"]}
 
 VMAPS = [["id"], ["rev"], ["gap", 3, 7], ["off", 10 ** 6], ["rot", 5], ["swap0"], ["stored_rev"]]
 
@@ -167,6 +167,21 @@ def run_series(at, cm, fields, vmaps, use_cm, guess_spec, viol, tags):
             if ex is not None or back != a:
                 viol.append({"what": "following the correspondence forward and then backward does not return the starting vertex", "detail": {"start": a, "forward": fwd, "back": None if ex else back}})
                 break
+            # the trajectory query follows the same correspondence frame by frame: it must visit the true successor in every frame
+            for tmax in ((-1, L) if L > 2 else (-1,)):
+                with fsutil.quiet():
+                    traj, ex = fsutil.call(ts.get_vertex_position, a, 0, tmax)
+                nfr = L
+                expd = [(s0.frames[t].vertices[infos[t]["jvid"][j]].x, s0.frames[t].vertices[infos[t]["jvid"][j]].y) for t in range(nfr)]
+                ok = ex is None and len(traj[0]) == nfr and all(traj[0][t] == expd[t][0] and traj[1][t] == expd[t][1] for t in range(nfr))
+                if not ok:
+                    viol.append({"what": "get_vertex_position does not report the positions of the junction's true successors frame by frame",
+                                 "detail": {"junction": j, "tmax": tmax, "exc": fsutil.exc_str(ex) if ex else None, "got": None if ex else [list(map(float, traj[0]))[:6], list(map(float, traj[1]))[:6]], "exp": expd[:6]}})
+                    break
+            else:
+                continue
+            break
+        tags.append("trajectory_checked")
     return s0, infos, status
 
 
